@@ -208,6 +208,9 @@ def worker_thread(kind, ob, w, W, n, go, slot):
 
 def conc_client(conn, cid, held, K, T, n):
     """a client process; held = [[scenario index, role, proxy] ...] (Process argument / inherited)"""
+    # a forked client inherits the driver's heap: keep it out of the collections the workers ask for
+    # (cost of gc.collect(), copy-on-write of every page the collector touches)
+    gc.freeze()
     try:
         while True:
             cmd = conn.recv()
@@ -249,7 +252,13 @@ def run_case(case):
     K, T, n, method = case['clients'], case['threads'], case['n'], case['method']
     kinds = case['kinds'] if case['kind'] == 'suite' else [case['kind']]
     W = K * T
-    out = dict(steps=[], scen=[], exits=[], names=[])
+    out = dict(steps=[], scen=[], exits=[], names=[], wall=[])
+    tw = [time.monotonic()]
+
+    def lap(what):
+        now = time.monotonic()
+        out['wall'].append([what, round(now - tw[0], 3)])
+        tw[0] = now
     m = SyncManager(authkey=KEY)
     # the server's threads switch far more often than every 5 ms: more interleavings inside the
     # server per operation (scheduling only; the code under test is unchanged)
@@ -290,6 +299,7 @@ def run_case(case):
                 out['names'].append(name)
                 p = None
         out['steps'].append(counts('created'))
+        lap('manager+referents')
         ctx = billiard.get_context(method)
         for cid in range(K):
             a, b = ctx.Pipe(duplex=True)
@@ -306,6 +316,7 @@ def run_case(case):
             if ask(c, 'ok', 180)[1] != len(refs):
                 raise RuntimeError('client holds a wrong number of proxies')
         out['steps'].append(counts('started'))
+        lap('clients started')
 
         for j, kind in enumerate(kinds):
             ob = dict((role, p) for jj, role, p in refs if jj == j)
@@ -365,6 +376,7 @@ def run_case(case):
                 sc['final'] = exc_obs(e)
             ob = None
             out['steps'].append(counts('after:%d' % j))
+            lap(kind)
 
         for pr, c in kids:
             c.send(['exit'])
@@ -377,6 +389,7 @@ def run_case(case):
         del refs[:]                   # the parent's proxies: Finalize runs BaseProxy._decref
         gc.collect()
         out['steps'].append(counts('dropped'))
+        lap('exit+drop')
     except CaseTimeout:
         out['error'] = 'timeout: the case did not finish'
     except Exception as e:          # noqa
@@ -414,14 +427,14 @@ def main():
             nk = len(c['kinds']) if c['kind'] == 'suite' else 1
             signal.setitimer(signal.ITIMER_REAL, c.get('timeout', 300 + 60 * nk))
             try:
-                res.append(run_case(c))
+                res.append(json.dumps(run_case(c)))      # (a string: nothing for the GC / forked clients)
             except CaseTimeout:
-                res.append(dict(error='timeout: the case did not finish (in cleanup)', steps=[], scen=[], exits=[],
-                                names=[]))
+                res.append(json.dumps(dict(error='timeout: the case did not finish (in cleanup)', steps=[], scen=[],
+                                           exits=[], names=[])))
             finally:
                 signal.setitimer(signal.ITIMER_REAL, 0)
         sys.stdout.flush()
-        print(json.dumps(res))
+        print('[' + ', '.join(res) + ']')
     except BaseException as e:          # noqa
         if os.getpid() != MAIN_PID:     # a child that escaped from its bootstrap
             os._exit(1)
